@@ -103,6 +103,11 @@ def run(tier):
     extra.update({"method_slice_states": len(add4)})
     st["states"] += len(add4)
     st["transitions"] += ex4.stats()["transitions"]
+    ex5 = explorer.Explorer(c01.cdata_menu)
+    st5 = ex5.run(4)
+    hists += [s.hist for s in st5 if s.hist["steps"]]
+    st["states"] += len(st5) - 1
+    st["transitions"] += ex5.stats()["transitions"]
     chain_depth = 3 if tier == "quick" else 4
     ex3 = explorer.Explorer(c01.chain_menu)
     st3 = ex3.run(chain_depth)
